@@ -17,4 +17,5 @@ for id in "$@"; do
   echo "RUN_ON_SEED $(basename $(dirname $PATCH)) $id: exit=$rc violations=$viol $keys"
 done
 git -C /repo checkout -- .
-./check --build-only >/dev/null 2>&1
+# in a batch (target/.batch_mode exists) the next run rebuilds anyway; otherwise leave a binary built from the clean tree
+[ -e target/.batch_mode ] || ./check --build-only >/dev/null 2>&1
